@@ -27,8 +27,8 @@ const (
 )
 
 type caseClock struct {
-	cur   atomic.Int64 // case index
-	start atomic.Int64 // unix nanos; 0 = idle
+	cur    atomic.Int64 // case index
+	start  atomic.Int64 // unix nanos; 0 = idle
 	budget atomic.Int64 // nanos
 }
 
